@@ -62,6 +62,7 @@ func ufDecls() string {
 	sb.WriteString("(declare-fun mhbytes ((Array (_ BitVec 64) (_ BitVec 8)) (_ BitVec 64) (_ BitVec 64) (_ BitVec 64)) (_ BitVec 64))\n")
 	sb.WriteString("(declare-fun strrank ((Array (_ BitVec 64) (_ BitVec 8)) (_ BitVec 64) (_ BitVec 64)) Int)\n")
 	sb.WriteString("(declare-fun strrank_i ((Array Int (_ BitVec 8)) Int Int) Int)\n")
+	sb.WriteString("(declare-const M8imm (Array (_ BitVec 64) (_ BitVec 8)))\n(declare-const M8imm_i (Array Int (_ BitVec 8)))\n")
 	sb.WriteString("(declare-fun sconcat_id (Int Int) Int)\n(declare-fun strlit_id (Int) Int)\n")
 	sb.WriteString("(declare-fun streq ((Array (_ BitVec 64) (_ BitVec 8)) (_ BitVec 64) (_ BitVec 64) (_ BitVec 64) (_ BitVec 64)) Bool)\n")
 	return sb.String()
